@@ -1,4 +1,4 @@
-From PG Require Import Lib.Strs Corr.Driver Model.Converter Model.ModelGen Corr.C16.
+From PG Require Import Lib.Strs Corr.Driver Model.Converter Model.ModelGen Corr.C16 Proofs.ModelGen.
 
 (* input: oracle tables (as in C16), NameSanitizer.sanitize_method_name as a finite table for the
    property names of the case, the object schemas, the converter operations run on the generated
@@ -48,8 +48,13 @@ Definition guard_F03b (c : c03_in) : bool :=
                           | _ => false
                           end) ops).
 
+(* hypothesis of C03_maps_bijective_partial: must hold on every case *)
+Definition guard_names (c : c03_in) : bool :=
+  let '(_, san, schemas, _) := c in
+  forallb (fun s => nodupb (map snd (names_of (san_of san) s))) schemas.
+
 Definition guards (c : c03_in) : list bool :=
-  [guard_F03a (model_ct c); guard_F03b c; guard_F03c (model_ct c)].
+  [guard_F03a (model_ct c); guard_F03b c; guard_F03c (model_ct c); guard_names c].
 
 Definition run (cases : list (c03_in * c03_obs)) : list N :=
   report c03_obs_eqb model_obs guards cases.
